@@ -14,7 +14,11 @@ MANIFEST = dict(
          "and processes): C35_finally_region - as long as every exception was raised inside the try block or its "
          "handler, cwd is restored and no info file is left whenever the process is outside the with block, and at the "
          "end of the with block the directory holds the complete job record and the complete result, marked errored "
-         "exactly when an exception was pending; C35_outside_leaves_directory; C35_hooks_once (pre_run_task and "
+         "exactly when an exception was pending; C35_directory_consistent_n (any number of submitters of the checksum, "
+         "any interleaving, no kill, nobody dirty: whenever the marker is absent and some execution has reached "
+         "job.cwd_restored, the directory holds the complete job record and a complete result, every process is outside "
+         "the with block in its original cwd with no info file) with C35_unlocked_directory_stable; "
+         "C35_outside_leaves_directory; C35_hooks_once (pre_run_task and "
          "post_run_task once per execution) and C35_hit_calls_no_hook; the property at full strength is refuted: "
          "C35_refuted_pre_try / C35_refuted_post_hook (an exception raised by pre_run_task, start_audit, "
          "_populate_filesystem, post_run_task or anywhere in the finally block leaves the process inside the job "
